@@ -517,8 +517,6 @@ fn main() {
 					let r = if !signed {
 						s.graph.update_channel_from_unsigned_announcement(&contents, &lookup).map(|_| "ok".to_string())
 					} else if via {
-						let sync = P2PGossipSync::new(&s.graph, None::<FixedLookup>, Arc::new(NullLogger));
-						let _ = &sync;
 						P2PGossipSync::new(&s.graph, Some(lookup.as_ref().unwrap()), Arc::new(NullLogger))
 							.handle_channel_announcement(None, &msg)
 							.map(|b| format!("ok:{}", b))
